@@ -57,6 +57,13 @@ def build_archives():
     mz = m + [("empty", b"")]
     out["AZ"] = {"blob": write(chains.py_filters("LZMA2"), mz, header="encoded"), "password": None, "members": mz}
     out["AE"] = {"blob": write(chains.py_filters("COPY+AES"), m, password=PW), "password": PW, "members": m}
+    # no streams at all: a directory and an empty file, written by the reference writer without a MainStreamsInfo section
+    # (what 7-Zip writes for such a tree; py7zr's own writer always emits the section)
+    from mc.ref import ref7z
+
+    mn = [{"name": "d", "kind": "dir", "data": None, "mtime": 132223104000000000, "attr": 0x10},
+          {"name": "d/e.txt", "kind": "emptyfile", "data": b"", "mtime": 132223104000000001, "attr": 0x20}]
+    out["AN"] = {"blob": ref7z.write(mn), "password": None, "members": [("d", None), ("d/e.txt", b"")]}
     # damaged copies: one byte inside the first packed stream
     for src, dst in (("A1", "D1"), ("AE", "DE"), ("A3", "D3")):
         img = bytearray(out[src]["blob"])
@@ -258,6 +265,10 @@ def run_history(ctx, hist, wd):
                     viol.append(({"symptom": "damaged-certified", "op": "testzip", "prev_decoding": _prev_decoding(hist)}, f"history {list(hist)}: testzip() certifies a damaged archive"))
                 if op == "test" and last == ("ok", True):
                     viol.append(({"symptom": "damaged-certified", "op": "test", "prev_decoding": _prev_decoding(hist)}, f"history {list(hist)}: test() certifies a damaged archive"))
+            elif op == "test" and last not in (("ok", True), ("ok", None)):
+                viol.append(({"symptom": "intact-not-certified", "op": "test"}, f"history {list(hist)}: test() on an intact archive -> {_short(last)}"))
+            elif op == "testzip" and last != ("ok", None):
+                viol.append(({"symptom": "intact-not-certified", "op": "testzip"}, f"history {list(hist)}: testzip() on an intact archive -> {_short(last)}"))
             elif last != fresh[op]:
                 viol.append(({"symptom": "differs-from-fresh", "op": op, "prev_decoding": _prev_decoding(hist), "after_reset": len(hist) > 1 and hist[-2] == "reset"},
                              f"history {list(hist)}: {op} -> {_short(last)} but a freshly opened archive gives {_short(fresh[op])}"))
@@ -320,6 +331,8 @@ def main(tier="quick", seed=0, only=None):
     for aid in ("A1", "A3", "AZ", "AE"):
         for mode in ("path", "bytesio", "fileobj"):
             configs.append((aid, mode, OPS, depth, None, True))
+    for mode in ("path", "bytesio"):
+        configs.append(("AN", mode, OPS, min(depth, 4), None, True))
     configs.append(("A3", "path", OPS, depth, 8, True))  # small extraction chunk: several decompress() rounds per member
     # soundness cross-check of the state merging: the same language with dedup OFF (every history is its own state)
     configs.append(("A3", "path", OPS, 3 if tier == "quick" else 4, None, False))
@@ -361,11 +374,11 @@ def main(tier="quick", seed=0, only=None):
     return chk.finish(
         rule=(
             f"BFS over call histories of length <= {depth} in the property's language (extract/extractall after a decoding call only after "
-            "reset(); test/testzip anywhere) over 12 calls, on 4 intact archives (1 folder, 3 folders from append sessions, LZMA2 solid "
-            "with an empty member, Copy+7zAES) x opened by path / BytesIO / file object (+ one configuration with an 8-byte extraction "
+            "reset(); test/testzip anywhere) over 12 calls, on 5 intact archives (1 folder, 3 folders from append sessions, LZMA2 solid "
+            "with an empty member, Copy+7zAES, and a reference-written archive without any stream: depth <= 4) x opened by path / BytesIO / file object (+ one configuration with an 8-byte extraction "
             "chunk), and over {getnames,test,testzip,extractall,reset} on 3 damaged copies. Every history is replayed on a fresh real "
             "SevenZipFile three times (ended by close, by with-exit, by an injected exception). Oracles: last call's result == result on a "
-            "freshly opened archive; damaged copies are never certified; SHA-256 of the archive unchanged after each ending; watchdog. "
+            "freshly opened archive; test() is True/None and testzip() None on intact archives; damaged copies are never certified; SHA-256 of the archive unchanged after each ending; watchdog. "
             "States are deduplicated by a census of all mutable session fields; distinct_nontrivial = distinct canonical states."
         ),
         assumptions=["canonical state = (fp position, per-folder decoder counters and digests, registered outputs, queue size, reporter, "
